@@ -16,7 +16,10 @@ MLS = ("fds",)
 HARNESSES = ("fds_h",)
 LEVEL = "proof"
 THEOREMS = ["C15_conservation", "C15_closed_exactly_once", "C15_received_from_sent", "C15_order_and_count",
-            "C15_only_negotiated", "C15_full", "C15_fuel_suffices", "C15_write_split", "C15_delivery_on_the_wire"]
+            "C15_only_negotiated", "C15_full", "C15_fuel_suffices", "C15_write_split", "C15_delivery_on_the_wire",
+            "C15_api_conservation", "C15_api_open_table", "C15_api_closes_only_own", "C15_api_identity", "C15_api_get_same_file",
+            "C15_api_copy_same_files", "C15_byte_erasure", "C15_byte_conservation", "C15_byte_no_fault", "C15_read_limit_refines",
+            "C15_protocol_sender_any_schedule"]
 
 NONTRIVIAL = {"delivered-with-fds", "error-NotSupported", "error-AccessDenied", "error-NoDest", "sender-disconnected-by-bus",
               "descriptors-held", "pending-timeout-fired", "driver-reply"}
@@ -47,8 +50,11 @@ def run(ctx):
     lib_replay = []
     if ctx.get("replay"):
         r = json.load(open(ctx["replay"]))["replay"]
-        one = [(r.get("name") or "replay", tuple(r["cfg"]), list(r["events"]))]
-        cases, lib_replay = ([], one) if r.get("leg") == "library" else (one, [])
+        if r.get("leg") == "api":
+            cases = []
+        else:
+            one = [(r.get("name") or "replay", tuple(r["cfg"]), list(r["events"]))]
+            cases, lib_replay = ([], one) if r.get("leg") == "library" else (one, [])
     else:
         cases = gen_cases(tier, rnd)
     cases, removed = fc.clean(model, cases)
@@ -157,6 +163,68 @@ def run(ctx):
                     dict(replay, impl=it, model=mt, names="correspondence harness/c/fds_h.c (libdbus client connection) vs Fds.step (extracted)"), found_input=False)
         elif flags:
             rep.violation("library: model and libdbus agree but break the specification at step %d: %s" % flags[0], dict(replay, impl=it, model=mt, oracle=flags))
+    # ---- the same library histories through the BYTE-LEVEL model (Fds/ByteLoader.v: the wire package's validators on the real bytes)
+    byte_dis = 0
+    if lcases:
+        blines = []
+        for (_, cfg, ev) in lcases:
+            f = fc.lib_line(cfg, ev).split(" ")
+            blines.append("bytes %s %s %s %d %s" % (f[1], f[2], f[3], cfg[3], " ".join(f[4:])))
+        bres, bcr = vlib.run_lines(model, blines, shards=min(vlib.NPROC, max(1, len(blines) // 200)))
+        for line, err in bcr:
+            rep.violation("extracted byte-level model failed: %s" % err[-300:], {"input": line[:3000], "names": "model driver"}, found_input=False)
+        for (name, cfg, ev), bm, r in zip(lcases, bres, lres):
+            if r == "!CRASH" or bm == "!CRASH":
+                continue
+            if bm != r:
+                byte_dis += 1
+                flags = fc.lib_oracle(cfg, ev, r.split())
+                replay = {"cfg": list(cfg), "events": ev, "name": name, "leg": "library", "line": fc.lib_line(cfg, ev)[:6000]}
+                bt, it = bm.split(), r.split()
+                k = next(j for j in range(max(len(bt), len(it))) if j >= len(it) or j >= len(bt) or bt[j] != it[j])
+                if flags:
+                    rep.violation("library, step %d: %s (libdbus `%s`, byte-level model `%s`)" % (flags[0][0], flags[0][1], it[k] if k < len(it) else "?", bt[k] if k < len(bt) else "?"),
+                                  dict(replay, impl=it, model=bt, oracle=flags))
+                else:
+                    rep.violation("libdbus and the byte-level model differ at step %d: libdbus `%s`, model `%s`; the C15 oracle accepts libdbus's behaviour"
+                                  % (k, it[k] if k < len(it) else "?", bt[k] if k < len(bt) else "?"),
+                                  dict(replay, impl=it, model=bt, names="correspondence harness/c/fds_h.c vs Fds.ByteLoader.bread (extracted)"), found_input=False)
+    # ---- the message API: append / copy / get_basic / get_args / ref / unref with real EMFILE failures (Fds/MsgApi.v)
+    api_n = 0 if ctx.get("replay") else (2500 if tier == "quick" else 40000)
+    arnd = random.Random(ctx["seed"] * 104729 + 3)
+    aseqs = [fg.gen_api_sequence(arnd, arnd.randint(5, 40)) for _ in range(api_n)]
+    if ctx.get("replay") and json.load(open(ctx["replay"]))["replay"].get("leg") == "api":
+        aseqs = [json.load(open(ctx["replay"]))["replay"]["ops"]]
+    api_dis, api_failures = 0, 0
+    if aseqs:
+        alines = ["api " + " ".join(o) for o in aseqs]
+        ares, acr = vlib.run_lines(info["fds_h"], alines)
+        amod, amcr = vlib.run_lines(model, alines)
+        for line, err in acr:
+            rep.violation("libdbus (harness fds_h, message API) crashed or reported a sanitizer error: %s" % err[-600:],
+                          {"input": line[:4000], "stderr": err[-3000:], "leg": "api"})
+        for line, err in amcr:
+            rep.violation("extracted model failed on `%s`: %s" % (line[:300], err[-300:]), {"input": line, "names": "model driver"}, found_input=False)
+        for ops, am, ar in zip(aseqs, amod, ares):
+            if ar == "!CRASH" or am == "!CRASH":
+                continue
+            api_failures += sum(1 for t in ar.split() if t.startswith("0/") or t.startswith("-/"))
+            mt, it = am.split() + ["end/0"], ar.split()
+            flags = fc.api_oracle(ops, it)
+            replay = {"leg": "api", "ops": ops, "how": "echo 'api %s' | build/fds_h   (model: the same line | build/ml/fds/model)" % " ".join(ops)}
+            if mt != it:
+                api_dis += 1
+                k = next(j for j in range(max(len(mt), len(it))) if j >= len(it) or j >= len(mt) or mt[j] != it[j])
+                if flags:
+                    rep.violation("message API, op %d `%s`: %s (libdbus `%s`, model `%s`)" % (
+                        flags[0][0], ops[flags[0][0]] if flags[0][0] < len(ops) else "(end)", flags[0][1], it[k] if k < len(it) else "?", mt[k] if k < len(mt) else "?"),
+                        dict(replay, impl=it, model=mt, oracle=flags))
+                else:
+                    rep.violation("libdbus and the message API model differ at op %d `%s`: libdbus `%s`, model `%s`; the C15 oracle accepts libdbus's behaviour"
+                                  % (k, ops[k] if k < len(ops) else "(end)", it[k] if k < len(it) else "?", mt[k] if k < len(mt) else "?"),
+                                  dict(replay, impl=it, model=mt, names="correspondence harness/c/fds_h.c api vs MsgApi.lstep (extracted)"), found_input=False)
+            elif flags:
+                rep.violation("message API: model and libdbus agree but break the specification at op %d: %s" % flags[0], dict(replay, impl=it, model=mt, oracle=flags))
     # ---- exploration outside the model: a recipient that never reads (outgoing queue holds descriptors)
     import fds_impl
     blocked = []
@@ -181,8 +249,9 @@ def run(ctx):
             elif r["blocked"] > 2 + mi + nf:
                 rep.violation("the bus held %d descriptors for a blocked recipient, more than max_incoming_unix_fds (%d) plus one message allows" % (r["blocked"] - 2, mi), how)
     rep.coverage.update({
-        "evaluations": len(cases) + len(lcases), "distinct_nontrivial": len(nontrivial) + len(lib_nontrivial),
-        "daemon_histories": len(cases), "library_histories": len(lcases), "library_disagreements": lib_dis, "library_distribution": lib_dist, "blocked_recipient_exploration": blocked,
+        "evaluations": len(cases) + len(lcases) + len(aseqs), "distinct_nontrivial": len(nontrivial) + len(lib_nontrivial),
+        "daemon_histories": len(cases), "library_histories": len(lcases), "library_disagreements": lib_dis, "library_distribution": lib_dist, "library_histories_through_byte_level_model": len(lcases), "byte_level_disagreements": byte_dis,
+        "api_sequences": len(aseqs), "api_disagreements": api_dis, "api_failed_calls_provoked": api_failures, "blocked_recipient_exploration": blocked,
         "rule": "histories over 2-5 raw clients (with / without NEGOTIATE_UNIX_FD, with / without a match rule for the test broadcast): whole messages, "
                 "two messages in one write, messages split into 2-3 writes at offsets {1,8,15,16,17,20,len/2,len-8,len-1,random} with the descriptors "
                 "on the first, the last or spread over the pieces, messages longer than one read (2048), UNIX_FDS announced in {0,1,2,max-1,max,max+1,"
@@ -198,7 +267,7 @@ def run(ctx):
                 "observed: messages popped with the identity of their descriptors, dbus_connection_get_is_connected, the pending count, /proc/self/fd "
                 "against the pending count after every step and against the baseline after the last unref (%d ill-formed events removed)"
                 % (fg.TIMEOUT, fg.TICK_MID, fg.TICK_LONG, len(fg.scenarios()), removed, sorted(NONTRIVIAL), len(lcases), lremoved),
-        "samples": samples, "input_distribution": dist, "traces_validated_against_impl": validated + len([r for r in lres if r != "!CRASH"]), "steps_compared": steps,
+        "samples": samples, "input_distribution": dist, "traces_validated_against_impl": validated + len([r for r in lres if r != "!CRASH"]) + len(aseqs), "steps_compared": steps,
         "disagreements_checked": disagreements, "timing_unusable": tainted, "steps_with_partial_writes_by_the_bus": partial_writes, "oracle_flagged_histories": oracle_flags, "exhaustive": False,
         "explanation": "PROVED (Coq, all histories, about the model coq/Fds/Fds.v): see property_theorems.  EXPLORED ONLY (not provable about C code "
                        "from a model): that the real daemon calls close() exactly once per descriptor on every path and that its descriptor table is "
